@@ -261,6 +261,17 @@ func (c *Ctx) Invariant(t types.Type, v *Term) *Term {
 	return c.invariant(t, v, 0)
 }
 
+// AllocFrontier: references below it existed when the function under contract started.
+func (c *Ctx) AllocFrontier() *Term { return c.Const("alloc_frontier", c.Int) }
+
+// InputInvariant: invariant of a harness parameter: additionally, every
+// reference in it is old (below the allocation frontier).
+func (c *Ctx) InputInvariant(t types.Type, v *Term) *Term {
+	c.inputMode = true
+	defer func() { c.inputMode = false }()
+	return c.invariant(t, v, 0)
+}
+
 func (c *Ctx) invariant(t types.Type, v *Term, depth int) *Term {
 	if depth > 4 {
 		return c.True
@@ -276,11 +287,18 @@ func (c *Ctx) invariant(t types.Type, v *Term, depth int) *Term {
 	}
 	switch u := t.Underlying().(type) {
 	case *types.Pointer, *types.Map, *types.Chan:
+		if c.inputMode {
+			return c.And(c.Cmp("<=", c.IntLit(0), v), c.Cmp("<", v, c.AllocFrontier()))
+		}
 		return c.Cmp("<=", c.IntLit(0), v)
 	case *types.Slice:
 		arr, off, ln, cp := c.Sel(v, 0), c.Sel(v, 1), c.Sel(v, 2), c.Sel(v, 3)
-		return c.And(c.Cmp("<=", c.IntLit(0), arr), c.Cmp("<=", c.IntLit(0), off), c.Cmp("<=", c.IntLit(0), ln), c.Cmp("<=", ln, cp),
+		inv := c.And(c.Cmp("<=", c.IntLit(0), arr), c.Cmp("<=", c.IntLit(0), off), c.Cmp("<=", c.IntLit(0), ln), c.Cmp("<=", ln, cp),
 			c.Implies(c.Eq(arr, c.IntLit(0)), c.Eq(cp, c.IntLit(0))))
+		if c.inputMode {
+			inv = c.And(inv, c.Cmp("<", arr, c.AllocFrontier()))
+		}
+		return inv
 	case *types.Struct:
 		var cs []*Term
 		if s.Special == "Try" {
